@@ -325,25 +325,44 @@ class Interp(ExprMixin):
             for v in t.values:
                 self.refine_optional(st, v, True)
             return
-        name, mode = None, None
-        if isinstance(t, ast.Name):
-            name, mode = t.id, "truthy"
-        elif isinstance(t, ast.Compare) and len(t.ops) == 1 and isinstance(t.left, ast.Name) \
+        place, mode = None, None
+        if isinstance(t, (ast.Name, ast.Attribute)):
+            place, mode = t, "truthy"
+        elif isinstance(t, ast.Compare) and len(t.ops) == 1 and isinstance(t.left, (ast.Name, ast.Attribute)) \
                 and isinstance(t.comparators[0], ast.Constant) and t.comparators[0].value is None:
             if isinstance(t.ops[0], ast.Is):
-                name, mode = t.left.id, "isnone"
+                place, mode = t.left, "isnone"
             elif isinstance(t.ops[0], ast.IsNot):
-                name, mode = t.left.id, "notnone"
-        if name is None or name not in st.env or not isinstance(st.env[name], Opt):
+                place, mode = t.left, "notnone"
+        if place is None:
             return
+        # locate the storage of the place: a local name, or a field of a record reached through names/attributes
+        if isinstance(place, ast.Name):
+            if place.id not in st.env or not isinstance(st.env[place.id], Opt):
+                return
+            get = lambda: st.env[place.id]
+            put = lambda v: st.env.__setitem__(place.id, v)
+        else:
+            try:
+                self.ctx.mute += 1
+                base = self.eval(st, place.value)
+            except Exception:
+                return
+            finally:
+                self.ctx.mute -= 1
+            if not (isinstance(base, Ref) and isinstance(st.obj(base), RecObj) and isinstance(st.obj(base).fields.get(place.attr), Opt)):
+                return
+            rec = st.obj(base)
+            get = lambda: rec.fields[place.attr]
+            put = lambda v: rec.fields.__setitem__(place.attr, v)
         val = outcome != neg
-        o = st.env[name]
+        o = get()
         if mode == "isnone":
-            st.env[name] = None if val else o.payload
+            put(None if val else o.payload)
         elif mode == "notnone":
-            st.env[name] = o.payload if val else None
+            put(o.payload if val else None)
         elif mode == "truthy" and val:
-            st.env[name] = o.payload
+            put(o.payload)
 
     def _mergeable(self, s):
         for n in ast.walk(s):
